@@ -12,12 +12,19 @@
   all three sources; structure (`dialectRT_structure`: lists, dotted lists, both vector spellings,
   exact depth measure `nestingP`) on the slice source.  Side conditions (`symbolPlainFor`,
   `keywordPlainFor`) are decidable and each is shown necessary by a witness in those files.
-  Not covered by the theorem: float leaves (ryu is a parameter), digit-initial and `#`-initial names.
+  With float leaves and for all three sources (LexprModel/Proofs/FullRT.lean, imported here):
+  `C02_roundtrip_full(_exact)`, `C02_roundtrip_full_sources` — the same for values whose float leaves
+  satisfy `FloatOK` (ryu meets its specification; exactly readable), read from a &str, a slice or a
+  stream; `atomRT_float_any` — the printed float is read back under ANY parser option set (with
+  leading-digit symbols the token goes through the symbol scanner and `wholeNumber`).
+  Not covered by the theorem: digit-initial and `#`-initial names (not plain identifiers).
   Proved here: facts about `Compatible`, `fold` and `pof` over the whole (finite) option space and
   for all values.
 -/
 import LexprModel.Spec.Dialect
 import LexprModel.Proofs.DialectStructRT
+import LexprModel.Proofs.Builder
+import LexprModel.Proofs.FullRT
 namespace Lexpr
 namespace Spec
 
@@ -93,6 +100,14 @@ theorem C13_pof_fold (r : Parse.Options) (v : Value) : fold (pof r) r v = v :=
   fold_id _ _ rfl rfl (by simp [pof]) v
 
 example : Compatible Print.Options.elisp Parse.Options.default = false := by decide
+
+/-- every printer option set the property quantifies over is constructible through the builder API of
+    `print::Options` (whose setters assign one field each: `Print.builder_frame`, `_commute`,
+    `_last_wins`; tied to the code by the `opts P` operations), and so is every parser option set -/
+theorem C02_every_option_set (p : Print.Options) (r : Parse.Options) :
+    (∃ ops, Print.Options.build Print.Options.default ops = p) ∧
+    (∃ ops, Parse.Options.build Parse.Options.new ops = r) :=
+  ⟨Print.builder_reachable p, Parse.builder_reachable r⟩
 
 end Spec
 end Lexpr
